@@ -51,9 +51,11 @@ func genC04(t *rapid.T) *c04Case {
 	c.Capacity = rapid.SampledFrom([]int{0, 1, 32}).Draw(t, "cap")
 	c.Notify = rapid.Bool().Draw(t, "notify")
 	c.Stride = 1
-	if rapid.IntRange(0, 3).Draw(t, "large") == 0 {
-		c.Many = rapid.SampledFrom([]int{150, 200, 300}).Draw(t, "many")
-		c.Stride = rapid.SampledFrom([]int{17, 29, 41}).Draw(t, "stride")
+	if rapid.IntRange(0, 2).Draw(t, "large") == 0 {
+		// 128-slot queues on both sides of the diff plus the sender's 128+4 pipeline:
+		// 300 and more entries fill all of them at once
+		c.Many = rapid.SampledFrom([]int{150, 300, 400, 600}).Draw(t, "many")
+		c.Stride = rapid.SampledFrom([]int{29, 41, 59}).Draw(t, "stride")
 	}
 	if rapid.Bool().Draw(t, "dirtydst") {
 		d := c.Tree
@@ -104,7 +106,9 @@ func c04RunOnce(tree *h.Tree, dstDir string, c *c04Case, f *c04Fault) *c04Run {
 	fire := func() { atomic.StoreInt32(&fired, 1) }
 	var hashN, notifyN int32
 	opt := fsutil.ReceiveOpt{}
-	needHasher := c.Notify || (f != nil && (f.Kind == "hasher" || f.Kind == "notify"))
+	needHasher := c.Notify || (f != nil && (f.Kind == "hasher" || f.Kind == "notify" || f.Kind == "R.cancel-stalled"))
+	var pairRef *h.Pair
+	var cancelSend, cancelRecv func()
 	if needHasher {
 		opt.ContentHasher = func(st *types.Stat) (hash.Hash, error) {
 			n := int(atomic.AddInt32(&hashN, 1))
@@ -119,6 +123,22 @@ func c04RunOnce(tree *h.Tree, dstDir string, c *c04Case, f *c04Fault) *c04Run {
 			if f != nil && f.Kind == "notify" && n == f.K {
 				fire()
 				return errInjected
+			}
+			if f != nil && f.Kind == "R.cancel-stalled" && n == f.K && pairRef != nil {
+				// hold the consumer of the diff here until the receive loop has stopped
+				// making progress (every queue between it and the diff is full), then
+				// cancel the receive call and let go
+				last, same := -1, 0
+				for i := 0; i < 4000 && same < 40; i++ {
+					if c := pairRef.R.RecvCount(); c == last {
+						same++
+					} else {
+						last, same = c, 0
+					}
+					time.Sleep(100 * time.Microsecond)
+				}
+				fire()
+				cancelRecv()
 			}
 			return nil
 		}
@@ -140,8 +160,8 @@ func c04RunOnce(tree *h.Tree, dstDir string, c *c04Case, f *c04Fault) *c04Run {
 			}
 		}
 	}
-	var cancelSend, cancelRecv func()
 	setup := func(p *h.Pair) {
+		pairRef = p
 		if f == nil {
 			return
 		}
@@ -308,6 +328,12 @@ func c04Check(env *h.Env, c *c04Case) error {
 		add("R.eof", cnt.RecvR)
 		add("S.cancel", cnt.SendS)
 		add("R.cancel", cnt.RecvR)
+		if c.Many >= 300 {
+			// cancellation while every queue between the receive loop and the diff is full
+			for k := 1; k <= 3; k++ {
+				faults = append(faults, c04Fault{Kind: "R.cancel-stalled", K: k})
+			}
+		}
 		add("walk", cnt.Walk)
 		needHN := c.Notify
 		if needHN {
@@ -349,7 +375,7 @@ func c04Check(env *h.Env, c *c04Case) error {
 			c.Only = &f
 			return fmt.Errorf(what+": "+format, args...)
 		}
-		if run.res.Stuck != "" && (f.Kind == "S.cancel" || f.Kind == "R.cancel") && run.res.StuckAfterTeardown == "" {
+		if run.res.Stuck != "" && (f.Kind == "S.cancel" || f.Kind == "R.cancel" || f.Kind == "R.cancel-stalled") && run.res.StuckAfterTeardown == "" {
 			// cancelling the context handed to a call does not by itself tear the stream
 			// down; the statement promises a return "once the stream is torn down", which
 			// the harness then did: both calls returned
